@@ -72,6 +72,7 @@ pub fn run_once(cfg: &Cfg, chooser: Chooser) -> Outcome {
     let sched = Sched::new(nthreads, chooser);
     let ops: Arc<Mutex<Vec<Op>>> = Arc::new(Mutex::new(vec![]));
     let rounds: Arc<Mutex<Vec<RoundRec>>> = Arc::new(Mutex::new(vec![]));
+    let query_panics: Arc<Mutex<Vec<String>>> = Arc::new(Mutex::new(vec![]));
     let mut handles = vec![];
     // tracer thread (tid 0)
     {
@@ -114,7 +115,7 @@ pub fn run_once(cfg: &Cfg, chooser: Chooser) -> Outcome {
     // reader threads
     for (ri, k) in cfg.readers.iter().enumerate() {
         let tid = 1 + ri;
-        let (sched, tracer, ops, k) = (sched.clone(), tracer.clone(), ops.clone(), *k);
+        let (sched, tracer, ops, k, query_panics) = (sched.clone(), tracer.clone(), ops.clone(), *k, query_panics.clone());
         handles.push(std::thread::spawn(move || {
             sched.thread_begin(tid);
             let _g = EndGuard(sched.clone(), tid);
@@ -122,8 +123,16 @@ pub fn run_once(cfg: &Cfg, chooser: Chooser) -> Outcome {
                 let call = sched.mark(tid, "snapshot-call");
                 let st = tracer.snapshot();
                 let ret = sched.mark(tid, "snapshot-return");
-                let rounds_seen = st.round_count(State::default_flow_id());
-                ops.lock().unwrap().push(Op { tid, kind: OpKind::Snapshot { digest: digest(&st), rounds_seen, has_error: st.error().is_some() }, call, ret });
+                // querying a torn snapshot may panic inside the code under test: that is an
+                // observation (a snapshot no sequential history explains), not a harness failure
+                let (d, rounds_seen) = match mc::catch(|| (digest(&st), st.round_count(State::default_flow_id()))) {
+                    Ok(x) => x,
+                    Err(pn) => {
+                        query_panics.lock().unwrap_or_else(std::sync::PoisonError::into_inner).push(pn.key());
+                        (0xdead_dead_dead_dead, usize::MAX)
+                    }
+                };
+                ops.lock().unwrap_or_else(std::sync::PoisonError::into_inner).push(Op { tid, kind: OpKind::Snapshot { digest: d, rounds_seen, has_error: st.error().is_some() }, call, ret });
             }
         }));
     }
@@ -149,8 +158,11 @@ pub fn run_once(cfg: &Cfg, chooser: Chooser) -> Outcome {
         }
     }
     let (chooser, trace, deadlock, model_errors) = sched.finish();
-    let ops = ops.lock().unwrap().clone();
-    let rounds = rounds.lock().unwrap().clone();
+    let ops = ops.lock().unwrap_or_else(std::sync::PoisonError::into_inner).clone();
+    let rounds = rounds.lock().unwrap_or_else(std::sync::PoisonError::into_inner).clone();
+    for q in query_panics.lock().unwrap_or_else(std::sync::PoisonError::into_inner).iter() {
+        thread_panics.push(format!("querying a snapshot panicked: {q}"));
+    }
     Outcome { ops, rounds, chooser, trace, deadlock, model_errors, thread_panics, state_cfg: StateConfig { max_samples: p.max_samples, max_flows: p.max_flows } }
 }
 
